@@ -31,7 +31,10 @@ func (x *Explorer) builtin(st *State, f *Frame, ins ssa.Instruction, b *ssa.Buil
 			// (For an operand that was not re-sliced only the reallocating outcome is: see DESIGN.)
 			s, ok1 := args[0].(VSlice)
 			t, ok2 := args[1].(VSlice)
-			if v, isVal := ins.(ssa.Value); ok1 && ok2 && isVal && !st.dead {
+			// (at most twice per path: every such append doubles the paths, and a function that reuses
+			// many buffers shows the effect on the first ones)
+			if v, isVal := ins.(ssa.Value); ok1 && ok2 && isVal && !st.dead && st.inPlaceForks < 2 {
+				st.inPlaceForks++
 				if _, isDefer := ins.(*ssa.Defer); !isDefer {
 					nl := Add(s.Len, t.Len)
 					alt := x.fork(st)
